@@ -103,6 +103,11 @@ def study_spec(cfg):
   return out
 
 
+def _perm(c, vals):
+  """Metrics reported in another order than the study declares them (clients report dicts)."""
+  return dict(reversed(list(vals.items()))) if c.get('perm') else vals
+
+
 def meas(vals, step=0):
   return study_pb2.Measurement(
       step_count=step,
@@ -242,6 +247,7 @@ class World:
   def __init__(self, cfg, backend='ram', policy_factory=None, dbdir=None,
                recycle_s=None):
     self.cfg = cfg
+    set_ids(cfg)
     self.backend = backend
     self.policy_factory = policy_factory
     self.recycle_s = cfg.get('recycle_s', 60.0) if recycle_s is None else recycle_s
@@ -308,9 +314,16 @@ def close_datastore(ds):
 
 # Owner / study ids by index. On purpose some differ only by case or hold an SQL
 # LIKE wildcard where another holds a character ('s_' ~ 's0', 'S0' ~ 's0', 'o_' ~ 'o0'),
-# and some are prefixes of others: a store that matches names loosely mixes them up.
+# one is another plus trailing whitespace ('s0 ' - display names are arbitrary), and some are
+# prefixes of others: a store or parser that treats names loosely mixes them up.
 OWNER_IDS = ('o0', 'o_', 'o2', 'O0')
-STUDY_IDS = ('s0', 's_', 'S0', 's01', 's%', 's5')
+STUDY_IDS = ('s0', 's0 ', 's_', 'S0', 's01', 's%')
+ID_ROT = [0]
+
+
+def set_ids(cfg):
+  """Per plan, another id of the cycle is the main study's (cfg['id_rot']); its neighbours are the siblings."""
+  ID_ROT[0] = int((cfg or {}).get('id_rot', 0))
 
 
 def oid(o):
@@ -318,7 +331,7 @@ def oid(o):
 
 
 def sid(d):
-  return STUDY_IDS[int(d) % len(STUDY_IDS)]
+  return STUDY_IDS[(int(d) + ID_ROT[0]) % len(STUDY_IDS)]
 
 
 def study_name(o, d):
@@ -466,7 +479,7 @@ def build_request(c, cfg):
     tk = c.get('tkind', 'plain')
     if tk == 'succeeded':
       tr.state = T.SUCCEEDED
-      tr.final_measurement.CopyFrom(meas({'m': c.get('v', 1), 'n': c.get('w', 1)}))
+      tr.final_measurement.CopyFrom(meas(_perm(c, {'m': c.get('v', 1), 'n': c.get('w', 1)})))
     elif tk == 'infeasible':
       tr.state = T.INFEASIBLE
       tr.infeasible_reason = 'r'
@@ -489,7 +502,7 @@ def build_request(c, cfg):
     return 'ListTrials', vs.ListTrialsRequest(parent=c['study'])
   if kind == 'AddTrialMeasurement':
     return 'AddTrialMeasurement', vs.AddTrialMeasurementRequest(
-        trial_name=tname, measurement=meas({'m': c.get('v', 0), 'n': c.get('w', 0)}, step=c.get('step', 0)))
+        trial_name=tname, measurement=meas(_perm(c, {'m': c.get('v', 0), 'n': c.get('w', 0)}), step=c.get('step', 0)))
   if kind == 'CompleteTrial':
     req = vs.CompleteTrialRequest(name=tname)
     ck = c.get('ckind', 'final')
@@ -497,7 +510,7 @@ def build_request(c, cfg):
       vals = {'m': c.get('v', 0), 'n': c.get('w', 0)}
       if ck.startswith('partial'):
         vals = {'m': c.get('v', 0)}
-      req.final_measurement.CopyFrom(meas(vals))
+      req.final_measurement.CopyFrom(meas(_perm(c, vals)))
     if 'infeasible' in ck:
       req.trial_infeasible = True
       req.infeasible_reason = c.get('reason', 'bad')  # '' = declared infeasible without giving a reason
